@@ -252,6 +252,18 @@ CHECKS = {
         note="For theta off the exact family the axis-fixed / axis-invariant / trace conditions characterise the rotation.",
         technique="TLA+ screw-motion model enumerated by TLC; replay through the twist classes",
         ref="6 (C18)"),
+    "C16": dict(
+        text="Api.tla lists the 46 entries documented ':SymPy: supported' and 10 symbolic pose expressions; TLC enumerates "
+             "(entry, all-symbolic | mixed symbols and numbers). Each is called with SymPy symbols, substituted at special "
+             "angles (0, +-pi/2, pi), special lengths (0, 1e-6, 1e6) and random points and compared (1e-12 relative) with the "
+             "numeric call at the same numbers; entries the numeric path returns as exactly 0 or 1 at every point must be "
+             "symbol-free 0 / 1 in the symbolic result; symbolic rotx/roty/rotz substituted at the exact Gaussian angles of "
+             "Ctor.tla (rational cos/sin) must give TLC's exact matrices. Pose expressions cover compose, invert, power, "
+             "divide and action on points.",
+        note="SE3.Delta is documented as SymPy-supported but normalises numerically (after the repair of C15) and is not "
+             "exercised symbolically; the spec's role here is the entry/mode enumeration and the exact constructor values.",
+        technique="TLA+ interface table enumerated by TLC; symbolic-vs-numeric replay with exact substitution at lattice angles",
+        ref="6 (C16)"),
 }
 
 ENGINE = {"name": "tlc-replay", "path": "/verif/check",
@@ -305,8 +317,7 @@ def main():
         "notes": "Genuine defects repaired by 'fix:' commits in /repo and open findings are listed in "
                  "/verif/known_findings.json; see DESIGN.md section 5.",
         "not_applicable": [{"property_id": p["id"],
-                            "reason": "check not built yet (work in progress, DESIGN.md section 11 build order); "
-                                      "the technique applies, see DESIGN.md section 6"}
+                            "reason": "check not built yet"}
                            for p in props if p["id"] not in CHECKS],
     }
     with open(os.path.join(V, "MANIFEST.json"), "w") as f:
